@@ -258,11 +258,11 @@ def features(prog):
                 if len(arm) > 2 and arm[2] is not None:
                     fs.add('match-guard')
                     ex(arm[2])
+                for x in arm[1]:
+                    stv(x)
             if len(s) > 4 and s[4] is not None:
                 fs.add('match-guard')
                 ex(s[4])
-                for x in arm[1]:
-                    stv(x)
             for x in s[3] or []:
                 stv(x)
     for s in prog['body']:
